@@ -189,8 +189,19 @@ def make_plan(seed: int, tier: str = "quick") -> dict:
             # during compilation (an aliaser is invoked for every object type)
             threads[t][j][3] = rng.choice(["camel", "prefix"])
         fault = {"thread": t, "op": j, "cb": "*", "n": rng.choice([1, 1, 2, 3, 5, 8])}
+    # fault "stalled callback": the n-th user callable reached by one operation is slow -- its thread
+    # stays inside it until all the others have finished or blocked (compile-time callables: lazy
+    # conversion getters, aliasers, default_conversion; run-time ones: converters, validators)
+    stall = None
+    if rng.random() < 0.3:
+        t = rng.randrange(n_threads)
+        j = rng.randrange(len(threads[t]))
+        if threads[t][j][3] == "default" and rng.random() < 0.4:
+            threads[t][j][3] = rng.choice(["camel", "prefix", "fresh"])
+        stall = {"thread": t, "op": j, "n": rng.choice([1, 1, 2, 3, 5])}
     return {
         "seed": seed,
+        "stall": stall,
         "threads": threads,
         "strategy": strat,
         "opcode": opcode,
@@ -243,10 +254,12 @@ def _call(op: list):
     raise ValueError(kind)
 
 
-def run_op(op: list, arm=None) -> list:
+def run_op(op: list, arm=None, stall=None) -> list:
     ctx = pool.CTX
     ctx.armed = arm
     ctx.count = 0
+    ctx.stall = stall
+    ctx.stall_count = 0
     fired0 = ctx.fired
     try:
         try:
@@ -257,6 +270,7 @@ def run_op(op: list, arm=None) -> list:
             res = canon.canon_exc(e)
     finally:
         ctx.armed = None
+        ctx.stall = None
     if ctx.fired != fired0:
         res = res + ["fault-fired"]
     return res
@@ -354,7 +368,9 @@ def child_simulate(plan: dict, script: Optional[list] = None) -> dict:
     def body(t: int):
         def fn():
             for j, op in enumerate(plan["threads"][t]):
-                res["%d.%d" % (t, j)] = run_op(op, _arm_for(plan, t, j, True))
+                st = plan.get("stall")
+                res["%d.%d" % (t, j)] = run_op(op, _arm_for(plan, t, j, True),
+                                               st["n"] if st and st["thread"] == t and st["op"] == j else None)
                 completion.append([t, j])
 
         return fn
